@@ -15,7 +15,7 @@ from itertools import zip_longest
 import pymbolic.primitives as pmbl
 from pymbolic.mapper import Mapper, WalkMapper, CombineMapper, IdentityMapper
 from pymbolic.mapper.stringifier import (
-    StringifyMapper, PREC_NONE, PREC_SUM, PREC_CALL, PREC_PRODUCT
+    StringifyMapper, PREC_NONE, PREC_SUM, PREC_CALL, PREC_PRODUCT, PREC_POWER
 )
 try:
     from fparser.two.Fortran2003 import Intrinsic_Name
@@ -177,6 +177,16 @@ class LokiStringifyMapper(StringifyMapper):
         denominator = self.rec_with_force_parens_around(expr.denominator, PREC_PRODUCT, *args, **kwargs)
         return self.parenthesize_if_needed(self.format('%s / %s', numerator, denominator),
                                            enclosing_prec, PREC_PRODUCT)
+
+    def map_power(self, expr, enclosing_prec, *args, **kwargs):
+        # Exponentiation is right-associative: a power as the base of a power needs parenthesis,
+        # (a**b)**c is not a**b**c
+        kwargs['force_parens_around'] = (pmbl.Power,)
+        base = self.rec_with_force_parens_around(expr.base, PREC_POWER, *args, **kwargs)
+        kwargs.pop('force_parens_around')
+        return self.parenthesize_if_needed(
+            self.format('%s**%s', base, self.rec(expr.exponent, PREC_POWER, *args, **kwargs)),
+            enclosing_prec, PREC_POWER)
 
     def map_parenthesised_add(self, expr, enclosing_prec, *args, **kwargs):
         return self.parenthesize(self.map_sum(expr, PREC_NONE, *args, **kwargs))
